@@ -398,11 +398,16 @@ def fs7(P, C):
     guard = False
     for x in rf.walk():
         if rf.k(x) == "IfStmt":
-            rc = core.rel_canon(rf, rf.nodes[x]["cond"], None)
-            if rc and rc[1] == "!=0" and vid is not None:
-                nm_ = rf.var_name(vid)
-                if rc[0] == core.eq_norm(core.Poly.atom(nm_) - core.Poly({("ndim",): 2})) or rc[0] == core.eq_norm(core.Poly.atom(nm_) - core.Poly({("this->ndim",): 2})):
-                    guard = True
+            # the size test may share its `if` with other reasons to fall back to the defaults (a disjunction)
+            conn, leaves = core.cond_leaves(rf, rf.nodes[x]["cond"])
+            if conn not in ("||", "leaf"):
+                continue
+            for lf in leaves:
+                rc = core.rel_canon(rf, lf, None)
+                if rc and rc[1] == "!=0" and vid is not None:
+                    nm_ = rf.var_name(vid)
+                    if rc[0] == core.eq_norm(core.Poly.atom(nm_) - core.Poly({("ndim",): 2})) or rc[0] == core.eq_norm(core.Poly.atom(nm_) - core.Poly({("this->ndim",): 2})):
+                        guard = True
     szcall = [j for (j, nm, m) in rcalls if nm == "ffgisz" and vid is not None and var_id(rf, rf.args(j)[2]) == vid]
     C.ob("FS-7", "read_fits_core", "count:extents", guard and bool(szcall) and buf == "(&extents[0][0])", rf.loc(i),
          "the extents are read only when the image holds exactly 2*ndim values (size from fits_get_img_size; otherwise defaults are made up)")
